@@ -190,6 +190,29 @@ def _case(args):
                     else:
                         n = new(c['obj'].copy(), c, False); n['seq'] = rng.choice(alts)
                     log.append(['switch', c['id']])
+            elif r < 0.93 and not c['imm']:
+                # probe: a terminal that is a key of the current row (choices()) but is not accepted — the table reduces on it before it notices the
+                # error.  The token must be refused, the stacks must be those the reductions left (the error state), and the cursor goes on.
+                tset = set(terms)
+                try:
+                    cand = sorted(t for t in c['obj'].choices() if t in tset and t != '$END' and t not in set(c['obj'].accepts()))
+                except UnexpectedToken:
+                    cand = []
+                if cand:
+                    t = rng.choice(cand)
+                    before_ = stack_of(c['obj'])
+                    try:
+                        c['obj'].feed_token(Token(t, 'x'))
+                        failures.append({'kind': 'accepts', 'cursor': c['id'], 'after': [str(t_) for t_ in seqs[c['seq']][:c['k']]], 'accepts': 'does not contain %s' % t, 'feedable': 'feed_token(%s) succeeded' % t}); break
+                    except UnexpectedToken:
+                        logq(before_, t, False, 'error', stack_of(c['obj']))
+                        if ref_feed(c['ref'], t) != 'error':
+                            failures.append({'kind': 'feed_error_unexpected', 'cursor': c['id'], 'at_token': c['k'], 'note': 'the table has an action for this token'}); break
+                        log.append(['probe_rejected', c['id'], t])
+                        if not check_stack(c, 'a rejected probe token %s (error state: reductions stay, token not consumed)' % t): break
+                        toks2 = list(seqs[c['seq']])
+                        seqs.append(toks2); refs.append(None); stexts.append(' '.join(str(t_) for t_ in toks2))
+                        c['seq'] = len(seqs) - 1; c['errored'] = True
             else:
                 check_accepts(c); log.append(['accepts', c['id']])
         # ---- finish every cursor; immutable ones twice (the original must be unaffected by its own continuation and by everybody else's)
